@@ -99,6 +99,9 @@ func (d *Driver) judge() {
 	if p.judges("C02") {
 		d.judgeC02()
 	}
+	if p.judges("C03") {
+		d.judgeC03()
+	}
 	if p.judges("C05") {
 		d.judgeC05()
 	}
@@ -110,6 +113,9 @@ func (d *Driver) judge() {
 	}
 	if p.judges("C09") {
 		d.judgeC09()
+	}
+	if p.judges("C12") {
+		d.judgeC12()
 	}
 	if p.judges("C17") {
 		d.judgeC17rounds()
